@@ -1477,6 +1477,15 @@ func (rl *Shell) dumpVariables() {
 	if rl.Iterations.IsSet() {
 		for _, variable := range variables {
 			value := rl.Config.Vars[variable]
+
+			// Boolean variables are only read back as on/off.
+			if enabled, ok := value.(bool); ok {
+				value = "off"
+				if enabled {
+					value = "on"
+				}
+			}
+
 			fmt.Printf("set %s %v\n", variable, value)
 		}
 	} else {
